@@ -444,8 +444,8 @@ example : (convertTrack 0 0 (flatL exTrackA ++ [⟨mds_SEGNO, 0⟩] ++ flatL exT
 /-! ## Whole songs of the fragment (third layer)
 
 `SongTop.PlainSong` = the fragment: track ids ascending, no explicit `END` event, every event of
-every track in `WFold.SimpleEv` (no pitch envelope on; notes — in drum mode: routine numbers —
-inside the MDSDRV range) with the front end's
+every track in `WFold.SimpleEv` (notes — in drum mode: routine numbers — inside the MDSDRV range;
+until round 5 also: no pitch envelope on) with the front end's
 timing (`SongSem.Timed`: 16-bit on/off times, only notes/ties have an on time, only notes/ties/rests
 an off time, a sounding note has at least one key-on tick) and loop counts 0..255, called tracks
 without loop point and without drum-mode switch (`SongTop.CalleeNoSeg`), drum-mode switches outside
@@ -467,7 +467,15 @@ the theorems cover (`Fragment.platEvB`: `CARRY`, or a one- / two-argument comman
 operand, `FLG` only with bit 7 set — i.e. `mode`, `lfo`, `lforate`, `fm3`, `write`, `pcmrate`,
 `pcmmode`, `carry`, and `cmd` with such an opcode) and the timeline reads it as what those events
 denote (`Fragment.platSpec`).  Macro tracks (`PAN_ENVELOPE` on) are inside: the `MTAB` operand is
-the macro index + 1 + number of subroutines, non-zero because it fits its byte (C09). -/
+the macro index + 1 + number of subroutines, non-zero because it fits its byte (C09).  Pitch
+envelopes (`PITCH_ENVELOPE` on, round 5) are inside: the writer pushes `PEG (i + 1)` with `i` the index
+`get_envelope` hands out, `i <` the size of `used_data_map` at that moment `≤` its final size
+(`SubMono`, third component: the map only grows through `hook` / `runWriter` / `get_subroutine` /
+`get_macro_track`) `< 32768` (the header of a chunk below 64 KiB holds two bytes per entry:
+`ChunkOK.nused`), so the 16-bit event argument is `i + 1 ≠ 0`, and the byte `convert_track` writes,
+`nSubs + nMacros + i + 1`, is not reduced (C09 `C09_index_fits_byte`), hence non-zero: the
+interpreter's `PEG` operand masks to 1 = what `Timeline.cmdOf` prescribes.  That the pitch envelope
+is defined (`pitch_map`) follows from `construct = .ok`. -/
 
 /-- **C02 for whole songs of the fragment.**  For every channel track in `Timeline.inDomain`
 whose expected tick string is defined: the track table of the assembled chunk lists the channel,
@@ -560,5 +568,20 @@ example : PlatformClean { platform := exPlatD } := by
   · split at h
     · simp only [Option.some.injEq] at h; subst h; intro ev hev; simp at hev; subst hev; unfold Plain; decide
     · cases h
+
+/-- pitch envelopes (round 5): `A M1 c [M2 d / M0 e]2 *100`, `*100 M1 f r` — switched on, to another
+envelope inside a loop in front of its break, off behind the break, on again in a subroutine -/
+def exPegRoot : List Event :=
+  [exCmd ev_PITCH_ENVELOPE 1, exNote 36 24 0, exCmd ev_LOOP_START 0, exCmd ev_PITCH_ENVELOPE 2, exNote 38 12 12,
+   exCmd ev_LOOP_BREAK 0, exCmd ev_PITCH_ENVELOPE 0, exNote 40 24 0, exCmd ev_LOOP_END 2, exCmd ev_JUMP 100]
+def exPegSong : Song :=
+  { tracks := [(0, exPegRoot), (100, [exCmd ev_PITCH_ENVELOPE 1, exNote 41 6 6, { type := ev_REST, param := 0, on := 0, off := 3 }])] }
+example : SongTop.PlainSong exPegSong := SongTop.plainSong_of_B (by decide)
+example : Timeline.inDomain exPegSong exPegRoot = true ∧ SongSplit.segCount exPegRoot ≤ 1 ∧ (0, exPegRoot) ∈ exPegSong.tracks := by decide
+example : SongTop.LoopDrumOK exPegRoot := SongTop.loopDrum_of_B (by decide)
+/-- the pitch-envelope commands of the expected tick string, in playing order: on, on (first pass), off (behind the break), on (second pass), on (subroutine) -/
+example : (Timeline.expected exPegSong [] exPegRoot).toOption.map
+    (·.filterMap fun t => match t with | .cmd op a => if op = mds_PEG then some a else none | _ => none) = some [1, 1, 0, 1, 1] := by
+  decide +kernel
 
 end Ctrmml.C02
